@@ -28,6 +28,7 @@ CONSTANTS Layouts     \* set of [items : Seq(Item), pkgdoc, build, imports, sibl
          mention (a PROSE line of the doc comment - of each method's doc comment for a converter interface - names a
          directive such as //go:generate in the middle of the line; prose is carried over / forwarded like any other line),
          gen2 (the go:generate line is followed directly by a second directive line)]
+   Layouts with pkggen also hold a declaration on ONE line of some 70 000 characters (a literal table) above the items.
    The prose of method docs (mdoc) holds characters that are special to templates and format strings ($name, ${name}, $1, %d).
    [k |-> "tmark", id]     a non-interface type whose doc carries a :convergen line
    [k |-> "vmark", id]     a VARIABLE of an interface type whose doc carries a :convergen line (no interface declaration)
